@@ -14,6 +14,7 @@ CONSTANTS
   MaxOps = 3
   MaxLabels = 2
   MaxSecs = 2
+  WithInst = TRUE
   Bug = "none"
 INVARIANTS ContractInv PendSum
 PROPERTIES RefinesContract StepProps
